@@ -69,13 +69,8 @@ func textInDomain(s string) bool {
 			return false
 		}
 	}
-	for _, r := range s {
-		if unicode.IsSpace(r) && r != ' ' && r != '\t' {
-			// interior exotic white space is reproduced verbatim; but TrimSpace at an enclosing level could meet it
-			// at an edge after encapsulation is absent — keep such texts out of the domain altogether
-			return false
-		}
-	}
+	// interior white space other than blank/tab (NBSP, ideographic space, newline ...) is ordinary text and must be
+	// reproduced verbatim; only at the very edges of a leaf is it out of domain (see above)
 	return true
 }
 
